@@ -840,7 +840,9 @@ func (m *OrderedMap) PopIterate(fn MapPopIterationFunc) error {
 		}
 	}
 
-	return nil
+	// If this map is a child, it notifies parent by invoking callback because
+	// this map is changed by removing all elements.
+	return m.notifyParentIfNeeded()
 }
 
 // Slab operations (split root, promote child slab to root)
